@@ -8,7 +8,7 @@ import (
 	"verif/harness/stats"
 )
 
-const ruleC09 = "rapid-generated histories of Put / invalid Put / Replay / GC / clock advance (non-decreasing, dt=0 included) on a ValidReplayer (TTL 1..20 ticks, GCInterval 0 | default | <=TTL | up to 2*TTL, both ID modes), compared with a TTL visibility model (entry visible iff put+ttl > now) at every Replay and by an invariant probe after every step. Non-trivial: at least one entry expired, a collection removed something, the internal buffer both grew and shrank (tracked by a shadow of the documented growth policy, used for classification only), and afterwards a Replay presenting a visible non-newest ID had to send something. Distinct: FNV-64 of the JSON of the case."
+const ruleC09 = "rapid-generated histories of Put / invalid Put / Replay / GC / clock advance (non-decreasing, dt=0 included) on a ValidReplayer (TTL 1..20 ticks, GCInterval 0 | default | <=TTL | up to 2*TTL, both ID modes), compared with a TTL visibility model (entry visible iff put+ttl > now) at every Replay and by an invariant probe (a Replay of the oldest visible ID with every topic) after every step - or, in 30% of the cases, only after the last step, because the probe is itself a successful Replay and so an observation that can reset state. Topic sets are 1..3 of {default,a,b,c} or, 20% of the time, 1..10 of a ten-topic alphabet in either order. Non-trivial: at least one entry expired, a collection removed something, the internal buffer both grew and shrank (tracked by a shadow of the documented growth policy, used for classification only), and afterwards a Replay presenting a visible non-newest ID had to send something. Distinct: FNV-64 of the JSON of the case."
 
 // shadow tracks what the implementation's buffer is expected to look like, for
 // classification of cases only (never for verdicts).
@@ -125,12 +125,12 @@ func checkC09(t *testing.T, c Case) *stats.Verdict {
 			interesting = true
 		}
 		if f == "" {
-			f = w.probe()
+			f = w.probe(i == len(c.Ops)-1 && i >= 0)
 		}
 		return f
 	}
 	for i := 0; i < c.Prefill; i++ {
-		if f := step(i, Op{Kind: "put", Topics: prefillTopics(i)}); f != "" {
+		if f := step(-1, Op{Kind: "put", Topics: prefillTopics(i)}); f != "" {
 			return v.Failf("", "prefill put %d: %s", i, f)
 		}
 	}
